@@ -159,12 +159,49 @@ def run_case(case: dict) -> dict:
     def deliver(frame):
         net.notify(0x580 + NODE, bytearray(frame), 0.0)
 
+    # C07: one disturbance of the k-th frame the server sends during the first call
+    fault = dict(case.get("fault") or {})
+    fcnt = {"n": 0, "on": bool(fault)}
+    STALE = bytes([0x43, 0x34, 0x12, 0x00, 1, 2, 3, 4])      # expedited upload response of another object
+
+    def disturb(frame):
+        """-> (kind, frames actually delivered)"""
+        if not fcnt["on"]:
+            return "none", [frame]
+        fcnt["n"] += 1
+        if fcnt["n"] != fault["at"]:
+            return "none", [frame]
+        k = fault["kind"]
+        if k == "drop":
+            return k, []
+        if k == "abort":
+            srv.ph = "idle"      # the abort is the server's: it has left the transfer
+            return k, [struct.pack("<BHBL", 0x80, case.get("idx", 0x2000), case.get("sub", 0), 0x08000000)]
+        if k == "cs":
+            return k, [bytes([frame[0] ^ 0x40]) + frame[1:]]
+        if k == "mux":
+            return k, [frame[:1] + bytes([frame[1] ^ 0xFF]) + frame[2:]]
+        if k == "muxsub":
+            return k, [frame[:3] + bytes([frame[3] ^ 0x01]) + frame[4:]]
+        if k == "dup":
+            return k, [frame, frame]
+        if k == "stale":
+            return k, [STALE, frame]
+        if k == "stale_after":
+            return k, [frame, STALE]
+        raise ValueError(k)
+
     def emit_ack(ack):
         cnt["ack"] += 1
+        cnt["since_ack"] = 0
         lost = cnt["ack"] in lose_ack
-        ev.append({"e": "ack", "r": B(ack), "lost": lost})
+        kind, frames = ("none", [ack]) if lost else disturb(ack)
+        # for the server model the acknowledge is "lost" when the client did not get it intact
+        ev.append({"e": "ack", "r": B(ack), "lost": lost or kind in ("drop", "abort", "cs"), "kind": kind,
+                   "dlv": [] if lost else [B(f) for f in frames]})
         if not lost:
-            deliver(ack)
+            for f in frames:
+                deliver(f)
 
     def emit_segs(segs):
         for s in segs:
@@ -176,9 +213,14 @@ def run_case(case: dict) -> dict:
                 how = "flip"
                 k = 1 + (cnt["sseg"] * 5) % 7
                 dlv = s[:k] + bytes([s[k] ^ (1 << (cnt["sseg"] % 8))]) + s[k + 1:]
-            ev.append({"e": "sseg", "r": B(s), "how": how, "dlv": B(dlv) if dlv else []})
-            if dlv is not None:
-                deliver(dlv)
+            kind, frames = ("none", [dlv]) if dlv is None or how != "ok" else disturb(dlv)
+            if kind in ("drop", "abort", "cs"):
+                how = "lost"            # effect on the segment stream as the model sees it
+            ev.append({"e": "sseg", "r": B(s), "how": how, "dlv": B(dlv) if dlv else [], "kind": kind,
+                       "frames": [B(f) for f in frames if f is not None]})
+            for f in frames:
+                if f is not None:
+                    deliver(f)
 
     def emit_end(fr):
         how, dlv = "ok", fr
@@ -189,8 +231,12 @@ def run_case(case: dict) -> dict:
             how, dlv = "wrongend", bytes([(fr[0] & 0xFC) | case["wrongend_ss"]]) + fr[1:]
         elif case.get("wrongend"):
             how, dlv = "wrongend", bytes([case["wrongend"]]) + fr[1:]
-        ev.append({"e": "send", "r": B(fr), "how": how, "dlv": B(dlv)})
-        deliver(dlv)
+        kind, frames = disturb(dlv) if how == "ok" else ("none", [dlv])
+        if kind in ("drop", "abort", "cs"):
+            how = "wrongend" if kind == "cs" else "lost"
+        ev.append({"e": "send", "r": B(fr), "how": how, "dlv": B(dlv), "kind": kind, "frames": [B(f) for f in frames]})
+        for f in frames:
+            deliver(f)
 
     def on_send(msg):
         if msg.arbitration_id != 0x600 + NODE:
@@ -202,6 +248,7 @@ def run_case(case: dict) -> dict:
                 srv.ph = "idle"
                 return
             cnt["seg"] += 1
+            cnt["since_ack"] = cnt.get("since_ack", 0) + 1
             lost = cnt["seg"] in lose_seg
             ev.append({"e": "seg", "q": B(q), "lost": lost})
             if not lost:
@@ -209,7 +256,8 @@ def run_case(case: dict) -> dict:
                 if ack is not None:
                     emit_ack(ack)
             return
-        if srv.ph in ("ulstart", "ulack", "ulend", "ulblk"):
+        new_init = len(q) == 8 and ((q[0] >> 5 == 5 and q[0] & 3 == 0) or (q[0] >> 5 == 6 and q[0] & 1 == 0))
+        if srv.ph in ("ulstart", "ulack", "ulend", "ulblk") and not new_init:
             ev.append({"e": "cq", "q": B(q)})
             if q[0] == 0x80:
                 srv.ph = "idle"
@@ -234,16 +282,20 @@ def run_case(case: dict) -> dict:
         elif q[0] >> 5 == 5 and q[0] & 3 == 0 and len(q) == 8:
             r = [srv.ul_init(q)]
         elif q[0] == 0x80:
+            srv.ph = "idle"
             r = []
         else:
             r = [struct.pack("<BHBL", 0x80, 0, 0, 0x05040001)]
-        ev.append({"e": "x", "q": B(q), "r": [B(f) for f in r], "dlv": [B(f) for f in r], "fault": "none"})
-        for f in r:
+        kind, frames = "none", list(r)
+        if len(r) == 1 and r[0][0] != 0x80:
+            kind, frames = disturb(r[0])
+        ev.append({"e": "x", "q": B(q), "r": [B(f) for f in r], "dlv": [B(f) for f in frames], "fault": kind})
+        for f in frames:
             deliver(f)
 
     class IdleQueue(hbus.InstantQueue):
         def get(self, block=True, timeout=None):
-            if not self.q:
+            if not self.q and cnt.get("since_ack", 0) > 0:
                 ack = srv.dl_idle()
                 if ack is not None:
                     emit_ack(ack)
@@ -256,53 +308,58 @@ def run_case(case: dict) -> dict:
     sdo = node.sdo
     idx, sub = case.get("idx", 0x2000), case.get("sub", 0)
     data = bytes(case.get("data", []))
-    if case["op"] == "bdl":
-        ev.append({"e": "call", "op": "bdl", "idx": idx, "sub": sub, "data": B(data),
-                   "size": case.get("size", len(data)), "crc": bool(case.get("crc", True))})
-        try:
-            size = case.get("size", len(data))
-            fp = sdo.open(idx, sub, "wb", buffering=case.get("buffering", 1024),
-                          size=None if size < 0 else size, block_transfer=True,
-                          request_crc_support=case.get("crc", True))
-            try:
-                if case.get("raw_reuse"):
-                    # unbuffered stream: the caller feeds 7-byte pieces from ONE reused buffer
-                    chunk = bytearray(7)
-                    pos = 0
-                    while pos < len(data):
-                        piece = data[pos:pos + 7]
-                        chunk[:len(piece)] = piece
-                        w = fp.write(memoryview(chunk)[:len(piece)])
-                        pos += w if w else len(piece)
-                    for i in range(7):
-                        chunk[i] = 0xEE
-                else:
-                    pos = 0
-                    for n in case.get("chunks") or [len(data)]:
-                        fp.write(data[pos:pos + n])
-                        pos += n
-            finally:
-                fp.close()
-            ev.append({"e": "ret", "data": []})
-        except Exception as exc:  # noqa
-            ev.append(_classify(exc))
-    else:
-        ev.append({"e": "call", "op": "bul", "idx": idx, "sub": sub, "data": [],
-                   "crc": bool(case.get("crc", True))})
-        try:
-            out = b""
-            with sdo.open(idx, sub, "rb", buffering=case.get("buffering", 1024), block_transfer=True,
-                          request_crc_support=case.get("crc", True)) as fp:
-                for n in case.get("reads", []):
-                    out += fp.read(n) or b""
-                while True:
-                    piece = fp.read()
-                    if not piece:
-                        break
-                    out += piece
-            ev.append({"e": "ret", "data": B(out)})
-        except Exception as exc:  # noqa
-            ev.append(_classify(exc))
+    for rnd in range(2 if case.get("fault") else 1):
+      if rnd == 1:
+        fcnt["on"] = False      # the follow-up transfer on the same client and server is undisturbed
+        if case.get("stale_between"):
+            deliver(STALE)
+      if case["op"] == "bdl":
+          ev.append({"e": "call", "op": "bdl", "idx": idx, "sub": sub, "data": B(data),
+                     "size": case.get("size", len(data)), "crc": bool(case.get("crc", True))})
+          try:
+              size = case.get("size", len(data))
+              fp = sdo.open(idx, sub, "wb", buffering=case.get("buffering", 1024),
+                            size=None if size < 0 else size, block_transfer=True,
+                            request_crc_support=case.get("crc", True))
+              try:
+                  if case.get("raw_reuse"):
+                      # unbuffered stream: the caller feeds 7-byte pieces from ONE reused buffer
+                      chunk = bytearray(7)
+                      pos = 0
+                      while pos < len(data):
+                          piece = data[pos:pos + 7]
+                          chunk[:len(piece)] = piece
+                          w = fp.write(memoryview(chunk)[:len(piece)])
+                          pos += w if w else len(piece)
+                      for i in range(7):
+                          chunk[i] = 0xEE
+                  else:
+                      pos = 0
+                      for n in case.get("chunks") or [len(data)]:
+                          fp.write(data[pos:pos + n])
+                          pos += n
+              finally:
+                  fp.close()
+              ev.append({"e": "ret", "data": []})
+          except Exception as exc:  # noqa
+              ev.append(_classify(exc))
+      else:
+          ev.append({"e": "call", "op": "bul", "idx": idx, "sub": sub, "data": [],
+                     "crc": bool(case.get("crc", True))})
+          try:
+              out = b""
+              with sdo.open(idx, sub, "rb", buffering=case.get("buffering", 1024), block_transfer=True,
+                            request_crc_support=case.get("crc", True)) as fp:
+                  for n in case.get("reads", []):
+                      out += fp.read(n) or b""
+                  while True:
+                      piece = fp.read()
+                      if not piece:
+                          break
+                      out += piece
+              ev.append({"e": "ret", "data": B(out)})
+          except Exception as exc:  # noqa
+              ev.append(_classify(exc))
     for i, e in enumerate(ev):
         e["n"] = i + 1
     return {"ev": ev, "value": B(value), "srvcrc": bool(case.get("srvcrc", True))}
